@@ -22,7 +22,7 @@ FLOORS = {
     'quick': {'trims': 150, 'rounds': 600, 'output_compares': 2500, 'with_range_input': 20,
               'with_buried_input': 10, 'output_is_input': 10, 'output_without_input': 10,
               'cfg:mem': 40, 'cfg:xlsx': 30, 'reloaded': 40, 'trim_before_any_evaluate': 30,
-              'rounds_that_changed_an_output': 200, 'real_book_trims': 50},
+              'rounds_that_changed_an_output': 200, 'real_book_trims': 25},
     'thorough': {'trims': 3500, 'rounds': 14000, 'with_range_input': 500, 'with_buried_input': 250,
                  'reloaded': 1000},
 }
